@@ -156,6 +156,10 @@ func doProbe(p Probe) (r1 uint64, errno uint64) {
 		return uint64(uint32(v)), 0
 	default:
 		a, _, e := syscall.RawSyscall6(uintptr(p.NR), uintptr(p.Args[0]), uintptr(p.Args[1]), uintptr(p.Args[2]), uintptr(p.Args[3]), uintptr(p.Args[4]), uintptr(p.Args[5]))
+		// Go's wrapper takes only -4094..-1 for an error; the kernel's range ends at -4095 (MAX_ERRNO), which a filter can return
+		if e == 0 && a == ^uintptr(0)-4094 {
+			return ^uint64(0), 4095
+		}
 		return uint64(a), uint64(e)
 	}
 }
